@@ -184,8 +184,8 @@ CHECKS = {
         "~50 pool programs of references, recomputed on every run). Also: every ordered pair of the "
         "state-sensitive programs in one process, a sweep of random-generator states, and every pool "
         "program converted in fresh processes under other string-hash seeds (same text required).",
-        "Assumes two fresh processes differ only in random suffixes (a quarter of the references is computed twice; a difference is a violation, "
-        "references each run). Histories are bounded (10 / 16 steps).",
+        "Assumes two fresh processes differ only in random suffixes (a quarter of the references is computed twice; a difference is a violation). "
+        "Histories are bounded (10 / 16 steps).",
         "DESIGN.md section 3, C10"),
     "C11": (
         "exhaustive enumeration of parameter-list shapes x annotation x placement x 8 configurations; "
